@@ -26,6 +26,11 @@ def gen_schema(rng, depth=0):
     out = []
     for nm in names:
         r = rng.random()
+        if depth == 0 and rng.random() < 0.08:
+            # the value lives in a variable of the caller (CFG_SIMPLE_*); no default is ever applied
+            ty = rng.choice(["int", "float", "bool", "str"])
+            out.append(decl(nm, ty, {"SIMPLE"}, [{"int": "0", "float": "0", "bool": "false", "str": NULL}[ty]]))
+            continue
         if r < 0.30 or depth >= 2:
             ty = rng.choice(["int", "float", "bool", "str"])
             fl = set()
